@@ -184,6 +184,34 @@ def run(ctx, out):
             out.corr("R1-noclobber-no-collision-failed", rep, "exit 0", r.exit)
         shutil.rmtree(d, ignore_errors=True)
 
+    # two sources mapping onto the same destination name, the first a symlink that points at an EXISTING
+    # destination entry: the walker's existence check for the second source races with the creation of the
+    # link by a worker (directed schedule: the symlink call is held back)
+    for driver in ("parfile", "parblock"):
+        for first in ("link", "file"):
+            for hold in (0, 400):
+                d = os.path.join(d0, "same_%s_%s_%d" % (driver, first, hold))
+                os.makedirs(os.path.join(d, "s1"))
+                os.makedirs(os.path.join(d, "s2"))
+                os.makedirs(os.path.join(d, "dst"))
+                open(os.path.join(d, "dst", "victim"), "wb").write(b"victim original\n")
+                open(os.path.join(d, "s2", "x"), "wb").write(b"new content from s2\n")
+                os.symlink(os.path.join(d, "dst", "victim"), os.path.join(d, "s1", "x"))
+                srcs = ["s1/x", "s2/x"] if first == "link" else ["s2/x", "s1/x"]
+                before = xcp.snapshot(os.fsencode(d))
+                argv = [ctx.bins["xcp"], "-n", "-w", "1", "--driver", driver] + srcs + ["dst"]
+                rules = [("hold", hold, 0, "symlink", 1, "*")] if hold else []
+                r = xcp.run_supervised(sup, argv, d, d, rules=rules, tag="st", timeout_ms=30000)
+                after = xcp.snapshot(os.fsencode(d))
+                out.case(("same-target", driver, first, hold), True)
+                out.count("same_target_directed")
+                rep = dict(kind="same-target", argv=argv[1:], hold_symlink_ms=hold, exit=r.exit, stderr=r.stderr[-200:])
+                e, a = before[b"dst/victim"], after.get(b"dst/victim")
+                if a is None or any(e.get(x) != a.get(x) for x in ("kind", "size", "sha", "mode", "mtime_ns")):
+                    out.violation("--no-clobber: the existing entry dst/victim was overwritten through a symlink created by the "
+                                  "same run (two sources map onto dst/x; exit %d)" % r.exit, rep)
+                shutil.rmtree(d, ignore_errors=True)
+
     # -n with -f
     d = os.path.join(d0, "nf")
     os.makedirs(d)
